@@ -121,7 +121,8 @@ def random_scene(rng, nlayer=None, lossless=False, isothermal=None, substrate="r
             s["params"] = dict(roughness_rms=round(float(rng.uniform(0.001, 0.03)), 4))
         elif substrate == "soil_qnh":
             Nq = round(float(rng.uniform(0, 2)), 3)
-            s["params"] = dict(Q=round(float(rng.uniform(0, 0.5)), 3), N=Nq, H=round(float(rng.uniform(0, 1)), 3), Nv=Nq, Nh=Nq)
+            # Q = 0 is the documented default (no polarisation mixing): one scene in three
+            s["params"] = dict(Q=0.0 if rng.random() < 0.33 else round(float(rng.uniform(0, 0.5)), 3), N=Nq, H=round(float(rng.uniform(0.05, 1)), 3), Nv=Nq, Nh=Nq)
         elif substrate == "rough_choudhury79":
             # the class refuses k*sigma > 0.1 (k in the layer above, index < 1.8)
             s["params"] = dict(roughness_rms=float(np.exp(rng.uniform(np.log(0.02), np.log(0.95)))) * 0.1 / (2 * np.pi * frequency / 2.9979e8 * 1.8))
